@@ -30,3 +30,31 @@ pub(crate) fn c12_bol_eol_m() {
     std::mem::forget(m);
     std::mem::forget(p);
 }
+
+//@ harness: c12_bol_eol_plain
+//@ props: C12 C05
+//@ tier: quick
+//@ bound: input <= 3 chars over all Unicode scalar values; every position 0..=len; no flag m
+//@ encodes: Bol::matches_iter Eol::matches_iter
+std_stubs! {
+    #[kani::unwind(5)]
+    pub(crate) fn c12_bol_eol_plain() {
+        let p = bare(Operation::from(Nothing), flags(""));
+        let mut m = ReMatcher::new(&p, "");
+        let (v, len) = sym_input::<3>();
+        m.search = v;
+        let pos: usize = kani::any();
+        kani::assume(pos <= len);
+        let want_bol = pos == 0;
+        let want_eol = pos == len;
+        kani::cover!(!want_bol && m.search[pos - 1] == '\n', "after a newline: still refused without m");
+        kani::cover!(!want_eol && m.search[pos] == '\n', "before a newline: still refused without m");
+        kani::cover!(want_bol && want_eol, "empty input");
+        let got_bol = Bol.matches_iter(&m, pos).next();
+        let got_eol = Eol.matches_iter(&m, pos).next();
+        kani::assert(opt_eq(got_bol, if want_bol { Some(pos) } else { None }), "C12.bol.plain");
+        kani::assert(opt_eq(got_eol, if want_eol { Some(pos) } else { None }), "C12.eol.plain");
+        std::mem::forget(m);
+        std::mem::forget(p);
+    }
+}
